@@ -128,6 +128,8 @@ type chanq struct {
 	buf    []value
 	cap    int
 	closed bool
+	// recvWaiting: receivers blocked on the channel right now (an unbuffered send may proceed)
+	recvWaiting int
 	env    *envChan // non-nil: environment channel (ticker, ctx.Done): readiness is nondeterministic
 }
 
@@ -139,13 +141,18 @@ type envChan struct {
 }
 
 func (ch *chanq) recv(fr *frame, elem types.Type) (value, bool) {
+again:
 	if len(ch.buf) > 0 {
 		v := ch.buf[0]
 		ch.buf = ch.buf[1:]
+		fr.i.chanAfterRecv(ch)
 		return v, true
 	}
 	if ch.closed {
 		return zero(elem), false
+	}
+	if ch.env == nil && fr.i.chanRecvBlocked(fr, ch) {
+		goto again
 	}
 	if ch.env != nil {
 		ch.env.fires++
